@@ -93,6 +93,16 @@ def extract_scan_token(prog):
         stmts = strip_docstring(stmts)
         if len(stmts) == 1 and isinstance(stmts[0], ast.Pass):
             return ("skip",)
+        if len(stmts) == 1 and isinstance(stmts[0], ast.Expr) and _self_call(stmts[0].value, "add_token") and stmts[0].value.args \
+                and isinstance(stmts[0].value.args[0], ast.IfExp) and len(stmts[0].value.args) == 1:
+            # self.add_token(A if test else B)  ==  if test: self.add_token(A) else: self.add_token(B)
+            ie = stmts[0].value.args[0]
+
+            def mk(e):
+                c = ast.Call(func=stmts[0].value.func, args=[e], keywords=[])
+                return ast.copy_location(ast.Expr(value=ast.copy_location(c, stmts[0])), stmts[0])
+
+            stmts = [ast.copy_location(ast.If(test=ie.test, body=[mk(ie.body)], orelse=[mk(ie.orelse)]), stmts[0])]
         if len(stmts) == 1:
             k = add_token_kind(stmts[0])
             if k is not None:
